@@ -24,6 +24,8 @@ TECHNIQUE += '; path rule for the cut itself (every path of cut() sets the flag 
 LEVEL_TEXT += ' Added clauses: cut() sets the flag on every path; a frame pusher written with explicit push/merge/undo is classified by its exit signature; every user of a wrapper that drops the flag (statescope) is a scope of its own, a rule boundary, or hands the flag on (isolate, skipgroup); the element of a closure is evaluated directly in the repetition frame, not behind an optional.'
 TECHNIQUE += '; transparent frames derived (any frame pusher that stores the flag of its own frame into the enclosing one is verified like isolate), flag-dropping frames the generator emits around non-scope constructs are violations'
 LEVEL_TEXT += ' Added clause: group() of the generated runtime hands a cut on (it is not a cut scope).'
+TECHNIQUE += '; a committed failure raised by repeat() leaves every caller as a failure on every path (C05.R5, path-state execution)'
+LEVEL_TEXT += ' Added clause: a join that matched its separator, or an iteration that passed a cut, fails the repetition instead of ending it.'
 LEVEL_NOTE = ('Oracle: docs/syntax.rst section on ~ (A->[x] == B->x|e, A->{x} == B->xB|e, join == e {s ~ e}). '
               'contextmanager throws the body exception at the yield.')
 EXPLANATION = ('Static analysis of /repo sources, TatSu not imported. Each scope construct is executed abstractly '
